@@ -293,3 +293,11 @@ def c_cli_check(P):
     P.prove("base_ref_selects_the_new_side", (cmp_[0][2] is new_git) == (len([c for c in calls if c[0] == "load_git"]) == 2))
     P.prove("both_sides_are_loaded_with_aliases_resolved", all(c[2] is True for c in calls if c[0] in ("load_git", "load")))
     P.cover("cli.check.compared")
+
+
+# --------------------------------------------------------------------------- the visibility decision the frontier relies on
+# `is_public` is uninterpreted in the contracts above; the same obligation as C01's `table.is_public` is discharged here on the real
+# ObjectAliasMixin.is_public, so a change of the public/private decision (e.g. an empty `__all__` no longer hiding members) fails a C11 obligation too.
+from contracts import C01 as _C01  # noqa: E402
+
+contract("C11", "table.is_public", [_C01.MIX + "is_public"], replay="replay_visibility")(_C01._table_contract("is_public", _C01.T_public, False))
